@@ -2353,7 +2353,10 @@ class Slur(TimedObject):
         self.start_note = start_note
         self.end_note = end_note
         # maintain a list of attributes to update when cloning this instance
-        self._ref_attrs.extend(["start_note", "end_note"])
+        # (the plain attributes rather than the properties: the property
+        # setters also register the object with the note, which must not
+        # happen again when references of a clone are remapped)
+        self._ref_attrs.extend(["_start_note", "_end_note"])
 
     @property
     def start_note(self):
@@ -2430,7 +2433,10 @@ class Tuplet(TimedObject):
         self.actual_type = actual_type
         self.normal_type = normal_type
         # maintain a list of attributes to update when cloning this instance
-        self._ref_attrs.extend(["start_note", "end_note"])
+        # (the plain attributes rather than the properties: the property
+        # setters also register the object with the note, which must not
+        # happen again when references of a clone are remapped)
+        self._ref_attrs.extend(["_start_note", "_end_note"])
 
     @property
     def start_note(self):
